@@ -166,7 +166,8 @@ func (v *inputFieldDefaultInjectionVisitor) processObjectOrListInput(fieldType i
 	if !found {
 		return defaultValue, false, nil
 	}
-	if node.Kind == ast.NodeKindScalarTypeDefinition {
+	if node.Kind != ast.NodeKindInputObjectTypeDefinition {
+		// only an input object's ref may index InputObjectTypeDefinitions below
 		return defaultValue, false, nil
 	}
 	finalVal := defaultValue
